@@ -421,7 +421,7 @@ package s3db
 // leaves the bucket untouched only in that case.
 //@ func OpenKV
 //@   requires imp(inMemoryS3 != nil, inMemoryS3.Client != nil)
-//@   modifies puts, deletes, lists, lastPutPrefix, lastPutName, lastPutOK, inMemoryS3, inMemoryBucket
+//@   modifies puts, deletes, deleteFailures, lists, lastPutPrefix, lastPutName, lastPutOK, inMemoryS3, inMemoryBucket
 //@   ensures readonly-no-write: imp(s3opts.ReadOnly, puts == old(puts) && deletes == old(deletes))
 //@   ensures named-no-list: imp(s3opts.OnlyVersions != nil, lists == old(lists))
 //@   ensures named-all-merged: forall j int :: imp(err == nil && s3opts.OnlyVersions != nil && 0 <= j && j < len(s3opts.OnlyVersions), has(result0.Root.mergedRoots, s3opts.OnlyVersions[j]))
@@ -461,7 +461,7 @@ package s3db
 // the table only on success (an error leaves the registry unchanged).
 //@ func New
 //@   requires imp(inMemoryS3 != nil, inMemoryS3.Client != nil)
-//@   modifies contents(tables), puts, deletes, lists, lastPutPrefix, lastPutName, lastPutOK, inMemoryS3, inMemoryBucket
+//@   modifies contents(tables), puts, deletes, deleteFailures, lists, lastPutPrefix, lastPutName, lastPutOK, inMemoryS3, inMemoryBucket
 //@   ensures readonly-no-write: imp(err == nil && result0.S3Options.ReadOnly, puts == old(puts) && deletes == old(deletes))
 //@   ensures registry-on-error: forall k string :: imp(err != nil, has(tables, k) == old(has(tables, k)) && tables[k] == old(tables[k]))
 //@   ensures registered: imp(err == nil, result0 != nil && fresh(result0) && result0.Name == old(args[0]) && has(tables, old(args[0])) && tables[old(args[0])] == result0 && !old(has(tables, args[0])))
@@ -500,7 +500,7 @@ package s3db
 
 //@ func (*VirtualTable).Commit
 //@   requires vtOK(c)
-//@   modifies c.txStart, puts, deletes, lastPutPrefix, lastPutName, lastPutOK, *c.Tree.Root.crdt.Mast, c.Tree.Root.mergedRoots, c.Tree.Root.crdt.MergeSources, c.Tree.Root.crdt.Source, c.Tree.Root.tombstoned
+//@   modifies c.txStart, puts, deletes, deleteFailures, lastPutPrefix, lastPutName, lastPutOK, *c.Tree.Root.crdt.Mast, c.Tree.Root.mergedRoots, c.Tree.Root.crdt.MergeSources, c.Tree.Root.crdt.Source, c.Tree.Root.tombstoned
 //@   ensures success: imp(result == nil, c.txStart == nil)
 //@   ensures failure-keeps-snapshot: imp(result != nil, c.txStart == old(c.txStart) && deletes == old(deletes))
 //@   ensures readonly: imp(c.Tree.Root.readonly, puts == old(puts) && deletes == old(deletes))
@@ -823,7 +823,7 @@ package s3db
 //@   requires ctx != nil
 //@   requires imp(has(tables, tableName) && tables[tableName] != nil, vtOK(tables[tableName]))
 //@   requires forall i int :: imp(has(tables, tableName) && tables[tableName] != nil, vacShape(vacRoot(tableName), i))
-//@   modifies puts, deletes, lastPutPrefix, lastPutName, lastPutOK, tables[tableName].Tree.Root, historyDeletions, historyHandle, historySnapshot, vacLastChildOld
+//@   modifies puts, deletes, deleteFailures, lastPutPrefix, lastPutName, lastPutOK, tables[tableName].Tree.Root, historyDeletions, historyHandle, historySnapshot, vacLastChildOld
 //@   ensures readonly: imp(has(tables, tableName) && tables[tableName] != nil && old(tables[tableName].Tree.Root.readonly), puts == old(puts) && deletes == old(deletes))
 // C09: if history was deleted, it was deleted for the version the table shows from now on (the nodes of THAT version were protected)
 // C04: a vacuum that fails before its purged tree was committed leaves the table's handle alone (the handle of a
